@@ -16,6 +16,7 @@ deriving instance FromJson, ToJson for Pkg
 deriving instance FromJson, ToJson for ConnV
 deriving instance FromJson, ToJson for Builder
 deriving instance FromJson, ToJson for Inst
+deriving instance FromJson, ToJson for Single
 deriving instance FromJson, ToJson for State
 deriving instance FromJson, ToJson for Res
 deriving instance FromJson, ToJson for ImportForm
